@@ -182,6 +182,36 @@ static int print(const char* outPath, unsigned long stride, unsigned long from, 
   }
   flush(last + 1);
   out << "{\"e\":\"fsummary\",\"checked\":" << (checked >> 16) << ",\"checkedlo\":" << (checked & 65535) << ",\"worst12\":" << (worst > 2000000000UL ? 2000000000UL : worst) << "}\n";
+  // integers print digit-exact: every power of ten and of two, their neighbours, digit groups that start with
+  // zeros (d * 10^k + r), seeded 64-bit patterns; the oracle is the C library's conversion
+  if (from == 0) {
+    std::vector<unsigned long long> us;
+    unsigned long long p10 = 1;
+    for (int k = 0; k < 20; k++) {
+      for (unsigned long long d : {1ULL, 5ULL, 17ULL, 18ULL})
+        for (unsigned long long r : {0ULL, 1ULL, 7ULL, 123456789ULL, 900000001ULL}) {
+          unsigned long long v = d * p10 + r;
+          if (v / p10 == d || k == 0) us.push_back(v);
+        }
+      us.push_back(p10 - 1);
+      if (k < 19) p10 *= 10;
+    }
+    for (int k = 0; k < 64; k++) { us.push_back(1ULL << k); us.push_back((1ULL << k) - 1); us.push_back((1ULL << k) + 1); }
+    unsigned long long x = 0x9E3779B97F4A7C15ULL;
+    for (int k = 0; k < 3000; k++) { x ^= x << 13; x ^= x >> 7; x ^= x << 17; us.push_back(x >> (k % 40)); }
+    for (unsigned long long u : us) {
+      for (int neg = 0; neg < 2; neg++) {
+        if (neg && u > 9223372036854775808ULL) continue;
+        JsonDocument d;
+        char want[32];
+        if (neg) { long long sv = (long long)(0ULL - u); d.set(sv); snprintf(want, sizeof want, "%lld", sv); }
+        else { d.set(u); snprintf(want, sizeof want, "%llu", u); }
+        std::string got;
+        serializeJson(d, got);
+        out << "{\"e\":\"iprint\",\"want\":\"" << want << "\",\"got\":\"" << got << "\"}\n";
+      }
+    }
+  }
   // doubles: powers of two and ten, integer boundaries and their neighbours, type limits, seeded values per exponent
   if (from == 0) {
     std::vector<double> ds;
